@@ -27,14 +27,16 @@ CLAIMED = {
     "C15": ("regex automata (re._parser -> NFA/DFA, language equality against C99 grammar) + dispatch table agreement",
             "Static: exact language of FLOAT_RE and its zero-width context, extent stability, keyword regex structure "
             "and consumed-context overlap, tgmath list and integer grammar, replacement templates, dtype dispatch "
-            "tables (convert_type, ctypes, numpy, dll name, FLOAT_SIZE conditionals, parse_dtype).",
+            "tables (convert_type, ctypes, numpy, dll name, FLOAT_SIZE conditionals, parse_dtype); converted token streams "
+            "and single-precision OpenCL front-end acceptance of every model; float-range headroom of single-safe shape models "
+            "(no intermediate of higher length degree than the value computed).",
             "Trusted: re.sub left-to-right semantics; reference grammars from C99 6.4.4.2. Not decided: that converted "
-            "kernels build and agree numerically.", "C15"),
+            "kernels agree numerically (rounding error is not bounded).", "C15"),
     "C18": ("typestate/def-use analysis of the cache path on make_dll's CFG",
             "Static: the cache path is only tested, logged, derived from, renamed onto and returned; the compiler "
             "writes a distinct temporary in the cache directory; the rename is dominated by the raising compile call; "
-            "the loader opens only the published path. Decides the shape that makes every interleaving and kill point "
-            "safe.",
+            "the loader opens only the published path; the entry points the loaders look up are the names the generator "
+            "defines. Decides the shape that makes every interleaving and kill point safe.",
             "Trusted: rename(2) atomicity in one directory; compiler writes only its -o argument.", "C18"),
     "C02": ("sympy normal forms (log-derivative identity) of Dispersion._weights + AST mask/plumbing rules",
             "Static: each distribution's weight expression has the same d/dx log as the documented density (proportional "
@@ -83,7 +85,8 @@ CLAIMED = {
     "C06": ("symbolic interpretation of set_spin_weights/mag_sld (guards enumerated) + structural rules on Imagnetic kernels",
             "Static: channel weights in both guard cases, effective SLD per channel (Halpern-Johnson, orthonormal frame), "
             "channel loop and slot arithmetic in all 45 magnetic units, append order, polar->rectangular conversion, kernel "
-            "selection by the magnetic flag.",
+            "selection by the magnetic flag; model-call arguments evaluated after the SLD substitution (builtin units and an "
+            "SLD-translation witness).",
             "Not decided: equality with recombined non-magnetic evaluations.", "C06"),
     "C07": ("affine layout algebra + normal forms + dominance on product.py",
             "Static: every index/slice of ProductKernel equals the offset implied by make_product_info's assembly order as a "
